@@ -143,11 +143,32 @@ let do_pipe (args : string list) : string =
     | _ -> "?query" in
   String.concat " ;; " (List.map answer (split_queries rest [] []))
 
+(* ---------- C14 streams ---------- *)
+let rec nat_of_int i = if i <= 0 then O else S (nat_of_int (i - 1))
+let rec int_of_nat = function O -> 0 | S k -> 1 + int_of_nat k
+let do_stream (op : string) (a : string list) : string =
+  match op, a with
+  | "acc", [n; len; out] ->
+      let out = List.map (fun s -> nat_of_int (int_of_string s)) (List.filter (fun x -> x <> "") (split_on ',' out)) in
+      b01 (accepts (nat_of_int (int_of_string n)) (nat_of_int (int_of_string len)) out)
+  | "acc", [n; len] -> b01 (accepts (nat_of_int (int_of_string n)) (nat_of_int (int_of_string len)) [])
+  | "chunks", [k; len] ->
+      let l = List.init (int_of_string len) (fun i -> i) in
+      String.concat "," (List.map (fun c -> string_of_int (List.length c)) (chunks (nat_of_int (int_of_string k)) l))
+  | _ -> "?stream-args"
+
 (* ---------- dispatch ---------- *)
 let dispatch (op : string) (args : string list) : string =
   match op with
   | "cache" -> do_cache args
   | "pipe" -> do_pipe args
+  | "acc" | "chunks" -> do_stream op args
+  | "sysprog" -> (match args with
+      | [off; len] -> String.concat "," (List.map (function
+          | Seek o -> "seek:" ^ string_of_n o | Read l -> "read:" ^ string_of_n l
+          | Pread (o, l) -> "pread:" ^ string_of_n o ^ ":" ^ string_of_n l)
+          (read_range_prog file_read_variant (n_of_string off) (n_of_string len)))
+      | _ -> "?sysprog-args")
   | _ when String.length op > 3 && (String.sub op 0 3 = "bb." || String.sub op 0 3 = "co.") -> do_bbox op (Array.of_list args)
   | _ -> "?unknown-op"
 
